@@ -1,10 +1,94 @@
-(* C05 - provisional while the correspondence is being validated. *)
-From TT Require Import Lib.Base Gen.Handlers Model.Run Spec.Run Spec.C05 Corr.C05 Proof.RunCore Proof.C05.
+(* C05 - all details and every traceback reach the result; none is dropped or overwritten; handlers
+   are called once per exception before the outcome.
+   Only statements; every proof is `exact <lemma of Proof/C05.v>`. *)
+From TT Require Import Lib.Base Gen.Handlers Model.Run Spec.Run Spec.C05 Corr.C05 Proof.RunCore Proof.RunExtra Proof.C05.
+
+(* The model meets the whole statement for every finite program (any number of statements, cleanups
+   registering cleanups to any depth, any exceptions, fixtures, mismatches, any detail names but
+   the reserved 'reason') outside the known finding F14. *)
+Theorem C05_holds : forall i : input, wf i = true -> finding_F14 i = false -> spec_okb i (model i) = true.
+Proof. exact model_meets_spec. Qed.
+Print Assumptions C05_holds.
+
+(* ... and inside F14 (the test attaches a detail under a base name a generated detail may hold:
+   TestCase.addDetail replaces the generated traceback) the full statement is false of the model *)
+Theorem C05_refuted_F14 : exists i, wf i = true /\ finding_F14 i = true /\ spec_okb i (model i) = false.
+Proof. exact refuted_F14. Qed.
+Print Assumptions C05_refuted_F14.
 
 Theorem C05_statement : forall i o, spec_okb i o = true -> Spec i o.
 Proof. exact spec_okb_sound. Qed.
 Print Assumptions C05_statement.
 
+(* the correspondence compares the number of outcome calls, the handler calls and their position
+   exactly, and the details as a multiset of (base name, content read at the outcome) *)
 Theorem C05_obs_eqb : forall a b, obs_eqb a b = true <-> obs_equiv a b.
 Proof. exact obs_eqb_spec. Qed.
 Print Assumptions C05_obs_eqb.
+
+(* C05_unique_fresh: addDetailUniqueName/gather_details and _report_traceback always find a name
+   that is not in the dict, within the [length dict] (+1) tries the loops are given (pigeonhole;
+   for _report_traceback on the strictly growing label), and keep the base name *)
+Theorem C05_unique_fresh :
+  (forall n d, dmem (unique_name n d) d = false /\ fst (unique_name n d) = fst n)
+  /\ (forall d id, dmem (fst (tb_label (length d) id n_traceback d)) d = false
+                   /\ fst (fst (tb_label (length d) id n_traceback d)) = fst n_traceback).
+Proof. exact unique_fresh. Qed.
+Print Assumptions C05_unique_fresh.
+
+(* C05_carried: the dict passed with the outcome contains every expected detail (the test's own by
+   name, every mismatch, expectation and fixture detail, the reason) as often as expected, and
+   exactly one traceback detail per exception that is not one of the exact signal classes and per
+   assertion behind an expected failure *)
+Theorem C05_carried : forall i, wf i = true -> finding_F14 i = false ->
+  (forall d, count d (expected_details (i_prog i)) <= count d (o_details (model i)))
+  /\ length (filter is_tb (o_details (model i))) = length (filter tbev (events (i_prog i))).
+Proof. exact carried. Qed.
+Print Assumptions C05_carried.
+
+(* C05_no_clobber: in ANY state of the dict a generated detail is appended, never assigned over
+   an existing entry *)
+Theorem C05_no_clobber : forall d e, generated_ev e = true -> exists l, d_dets (papply d e) = d_dets d ++ l.
+Proof. exact no_clobber. Qed.
+Print Assumptions C05_no_clobber.
+
+(* C05_on_exception: for EVERY program (no side condition): exactly one outcome call; the handler
+   calls are those of the declarative reading (each handler once per constituent exception caught
+   after its registration, in order); none comes after the outcome *)
+Theorem C05_on_exception : forall i,
+  o_outs (model i) = 1 /\ o_calls (model i) = x_calls (xrun (i_prog i)) /\ o_late (model i) = 0.
+Proof. exact on_exception. Qed.
+Print Assumptions C05_on_exception.
+
+(* C05_bytes_at_report: the result reads the dict when the outcome is reported: a lazy content
+   yields what its cell holds at the end of the run, a gathered one what it held at gathering *)
+Theorem C05_bytes_at_report :
+  (forall i, o_details (model i) = map (fun nc => (fst (fst nc), snd nc)) (delivered (i_prog i)))
+  /\ (forall p, p_skip p = None ->
+        delivered p = map (fun nc => (fst nc, dresolve (dreport p) (snd nc))) (d_dets (dreport p))
+        /\ d_cells (dreport p) = d_cells (dfinal p))
+  /\ (forall D loc v, dresolve D (CLazy loc) = OBytes (dcell loc D) /\ dresolve D (CSnap v) = OBytes v)
+  /\ (forall d n loc, In (unique_name n (d_dets d), CSnap (dcell loc d)) (d_dets (papply d (DFx n loc)))).
+Proof. exact bytes_at_report. Qed.
+Print Assumptions C05_bytes_at_report.
+
+(* non-vacuity: user details colliding with generated names (attached first, so outside F14), a
+   mismatch and a failing old-style fixture carrying a detail of the same name, a cell changed after
+   attachment and after gathering, MultipleExceptions incl. a KeyboardInterrupt, two handlers *)
+Example C05_example :
+  let fx := {| fx_tok := 20; fx_old := true; fx_details := [((4, []), 2)]; fx_cleanups := [];
+               fx_fail := Some (Exc CValueError None) |} in
+  let i := {| i_prog := {| p_skip := None; p_xfail := false;
+                p_setup := (1, [ADetail n_traceback 1; ADetail (0, [1]) 1; AOnExc 0; ASetCell 2 3]); p_up_setup := true;
+                p_body := (2, [ADetail (4, []) 2; AExpect [((4, []), 2)]; AOnExc 1; AFixture fx]);
+                p_teardown := (3, [ASetCell 2 5; ARaise (Multi [Exc CFail None; Exc CSkip (Some 1); Exc CKbd None])]);
+                p_up_teardown := true; p_handlers := [] |} |} in
+  wf i = true /\ finding_F14 i = false
+  /\ model i = {| o_outs := 1;
+                  o_details := [(0, OBytes 0); (0, OBytes 0); (4, OBytes 5); (4, OBytes 5); (1, OStack); (4, OBytes 3);
+                                (0, OTb); (0, OTb); (0, OTb); (0, OTb)];
+                  o_calls := [(0, CValueError); (1, CValueError); (0, CFail); (1, CFail); (0, CSkip); (1, CSkip);
+                              (0, CKbd); (1, CKbd); (0, CFail); (1, CFail)];
+                  o_late := 0 |}
+  /\ expected_details (i_prog i) = [(0, OBytes 0); (0, OBytes 0); (4, OBytes 5); (4, OBytes 5); (1, OStack); (4, OBytes 3)].
+Proof. vm_compute. repeat split. Qed.
